@@ -324,7 +324,7 @@ func c10Check(c *sim.Ctx, w *world.World) {
 func runC10(c *sim.Ctx) {
 	s := c.Src
 	prof := world.Profile{PageSizes: []int{4096, 1024}, MaxTables: 4, RowsLo: 0, RowsHi: 6, Fancy: 6, DDL: true,
-		WithoutRow: 3, IndexesHi: 3, Exprs: true, JournalMode: []string{"DELETE"}}
+		WithoutRow: 3, IndexesHi: 3, Exprs: true, JournalMode: []string{"DELETE"}, LegacyFormat: true}
 	if s.Chance(1, 4, "veryfancy") {
 		prof.Fancy = 10
 	}
